@@ -11,9 +11,11 @@
   ordinary (positive) wildcard pattern that matches only the empty string.
 -/
 
+import LccModel.Model.Regex
+
 namespace LccModel.Filter
 
-abbrev Str := List Nat
+export LccModel.Regex (Str lowerAscii RE)
 
 /-! ## 1. Wildcards: `fnmatch.translate` + the `re` character-set reader -/
 
@@ -326,34 +328,35 @@ structure TestRes where
   steps : List Step
 deriving Repr, DecidableEq
 
-def lowerAscii (c : Nat) : Nat := if 65 ≤ c ∧ c ≤ 90 then c + 32 else c
-
 def isPrefixCI : Str → Str → Bool
   | [], _ => true
   | _ :: _, [] => false
   | a :: p, b :: s => lowerAscii a == lowerAscii b && isPrefixCI p s
 
-/-- Case-insensitive literal containment: the model of `re.compile(re.escape(lit), IGNORECASE|MULTILINE).search`
-    on texts whose only case pairs are ASCII letters. -/
+/-- Case-insensitive literal containment: what `re.compile(re.escape(lit), IGNORECASE|MULTILINE).search` computes
+    on texts whose only case pairs are ASCII letters (`C12.grep_literal_is_containment`: it is the regular
+    expression model `Regex.search (RE.ofLit lit)`). -/
 def containsCI (lit : Str) : Str → Bool
   | [] => lit.isEmpty
   | c :: s => isPrefixCI lit (c :: s) || containsCI lit s
 
-/-- `ResultFilter`. `grep = some lit` is a compiled literal pattern. -/
+/-- `ResultFilter`. `grep = some re` is a compiled pattern (`Model/Regex.lean`). -/
 structure ResultFilter extends Base where
   statuses : List Status := []
   enabled : Bool := false
   disabled : Bool := false
-  grep : Option Str := none
+  grep : Option RE := none
 deriving Repr, DecidableEq
 
 def ResultFilter.doStatuses (rf : ResultFilter) (st : Option Status) : Bool :=
   rf.statuses.isEmpty || (match st with | some s => rf.statuses.contains s | none => false)
 
+/-- `_do_grep` / `_grep`: `any(map(pattern.search, _iter_grepable(steps)))` — every grepable item is searched
+    on its own. -/
 def ResultFilter.doGrep (rf : ResultFilter) (steps : List Step) : Bool :=
   match rf.grep with
   | none => true
-  | some lit => (grepables steps).any (containsCI lit)
+  | some re => (grepables steps).any (Regex.search re)
 
 /-- `ResultFilter._apply_result_criteria`. -/
 def ResultFilter.resultCriteria (rf : ResultFilter) (st : Option Status) (steps : List Step) : Bool :=
@@ -445,8 +448,11 @@ structure Cli where
   failed : Bool := false
   skipped : Bool := false
   nonPassed : Bool := false
-  /-- `--grep X` with non-empty `X` (an empty string is falsy in the code and means "no grep"). -/
+  /-- `--grep X`: the pattern text (an empty string is falsy in the code and means "no grep"). -/
   grep : Option Str := none
+  /-- What `re.compile(X, IGNORECASE | MULTILINE)` denotes (the harness obtains it from Python's own parse of
+      `X`); by default `X` is read as the escaped literal `re.escape(X)`. -/
+  grepRe : RE := LccModel.Regex.RE.ofLit (grep.getD [])
   /-- `--from-report PATH` given with a non-empty path. -/
   fromReport : Bool := false
 deriving Repr, DecidableEq
@@ -467,9 +473,9 @@ def cliStatuses (c : Cli) : List Status :=
   (if c.passed then [.passed] else []) ++ (if c.failed || c.nonPassed then [.failed] else [])
     ++ (if c.skipped || c.nonPassed then [.skipped] else [])
 
-def Cli.grepNonEmpty (c : Cli) : Option Str :=
+def Cli.grepNonEmpty (c : Cli) : Option RE :=
   match c.grep with
-  | some g => if g.isEmpty then none else some g
+  | some g => if g.isEmpty then none else some c.grepRe
   | none => none
 
 def Cli.reportBased (c : Cli) : Bool :=
